@@ -460,6 +460,11 @@ def zstd_encode_all(e, c, a):
 @model(r"^zstd::decode_all::<|^zstd::stream::decode_all::<|^decode_all::<&\[u8\]>$")
 def zstd_decode_all(e, c, a):
     l, lo, hi = e.seq_of(a[0])
+    if hi - lo >= 3 and e.branch(e.binop("Eq", l[lo], Int(8, 0, ZMAGIC + 1))):
+        n = e.concretize(l[lo + 1], 255) + 256 * e.concretize(l[lo + 2], 255)
+        if lo + 3 + n > hi:
+            return err(io_err("zstd: truncated frame"))
+        return ok(VecObj(list(l[lo + 3:lo + 3 + n])))
     if hi - lo < 1 or not e.branch(e.binop("Eq", l[lo], Int(8, 0, ZMAGIC))):
         return err(io_err("zstd: not a frame"))
     return ok(VecObj(list(l[lo + 1:hi])))
@@ -543,3 +548,59 @@ def rayon_builder(e, c, a):
 @model(r"^num_cpus::get$|^num_cpus::get_physical$|^std::thread::available_parallelism$")
 def num_cpus_get(e, c, a):
     return usize(4)
+
+
+# ====================================================================== thread-locals / RefCell / zstd-safe contexts
+@model(r"^LocalKey::<.*>::new$|^std::thread::LocalKey::<.*>::new$|^std::thread::local_impl::|thread_local_inner")
+def localkey_new(e, c, a):
+    return Opaque("thread_local_key")
+
+
+@model(r"^LocalKey::<.*>::with::<|^std::thread::LocalKey::<.*>::with::<")
+def localkey_with(e, c, a):
+    return e.call_closure(a[1], [Ref(Cell(Opaque("thread_local")))])
+
+
+@model(r"^RefCell::<.*>::(borrow_mut|borrow|new|into_inner)$|<Ref(Mut)?<'_, .*> as Deref(Mut)?>::deref(_mut)?$")
+def refcell_ops(e, c, a):
+    m = c.rsplit("::", 1)[1]
+    if m == "new":
+        return Ref(Cell(a[0]))
+    if m == "into_inner":
+        return e.load(a[0]) if isinstance(a[0], Ref) else a[0]
+    return a[0] if isinstance(a[0], Ref) else Ref(Cell(a[0]))
+
+
+@model(r"^(zstd_safe::)?compress_bound$")
+def zstd_compress_bound(e, c, a):
+    n = a[0]
+    if not n.conc():
+        raise Unsupported("compress_bound of a symbolic length")
+    return usize(n.v + (n.v >> 8) + (((128 << 10) - n.v) >> 11 if n.v < (128 << 10) else 0))
+
+
+@model(r"^CCtx::<'_>::compress::<|^zstd_safe::CCtx::<'_>::compress::<|^(zstd_safe::)?compress::<")
+def zstd_cctx_compress(e, c, a):
+    """ZSTD_compressCCtx stub: lossless, and the output size is a free choice between a small frame and the worst
+    case compress_bound(n); a destination smaller than the chosen frame gives the 'dstSize_tooSmall' error."""
+    dst, src = a[-3], a[-2]
+    l, lo, hi = e.seq_of(src); n = hi - lo
+    bound = n + (n >> 8) + (((128 << 10) - n) >> 11 if n < (128 << 10) else 0)
+    need = [n + 1, bound][e.choose(2)] if bound > n + 1 else n + 1
+    dv = e.load(dst) if isinstance(dst, Ref) and isinstance(e.load(dst), VecObj) else None
+    dl, dlo, dhi = e.seq_of(dst)
+    if dhi - dlo < need:
+        return err(usize(70))
+    # frame = magic, payload; a worst-case frame carries its payload length after a second magic so that decoding is exact
+    if need == n + 1:
+        frame = [Int(8, 0, ZMAGIC)] + list(l[lo:hi])
+    else:
+        frame = [Int(8, 0, ZMAGIC + 1), Int(8, 0, n & 0xFF), Int(8, 0, (n >> 8) & 0xFF)] + list(l[lo:hi]) + [Int(8, 0, 0)] * (need - n - 3)
+    dl[dlo:dlo + need] = frame
+    e.notes["zstd_frame_lengths"] = "n+1 or compress_bound(n)"
+    return ok(usize(need))
+
+
+@model(r"^(zstd_safe::)?get_error_name$")
+def zstd_error_name(e, c, a):
+    return e.str_slice(b"Destination buffer is too small")
